@@ -26,7 +26,7 @@ class NotInlinable(Exception):
 
 def load_known():
     d = json.loads(KNOWN.read_text())
-    return set(d["functions"]), set(d["constants"])
+    return set(d["functions"]), set(d["constants"]), {k: set(v) for k, v in d.get("locals", {}).items()}
 
 
 def _clone(n):
@@ -134,7 +134,7 @@ class _Subst(ast.NodeTransformer):
         return n
 
 
-def _bind(h, call, receiver, counter):
+def _bind(h, call, receiver, counter, caller_names=frozenset(), keep=frozenset()):
     """(pre-statements, mapping param->expr, rename map) for one call."""
     params = list(h.params)
     mapping, pre = {}, []
@@ -168,10 +168,12 @@ def _bind(h, call, receiver, counter):
                 # expression helpers cannot introduce statements: substitute anyway (evaluated more than once - harmless here)
                 mapping[p] = a
             else:
-                new = p + tag
+                new = p + tag if p in caller_names else p
                 pre.append(ast.Assign(targets=[ast.Name(id=new, ctx=ast.Store())], value=_clone(a)))
                 mapping[p] = ast.Name(id=new, ctx=ast.Load())
-    rename = {v: v + tag for v in h.assigned if v not in params}
+    argnames = {x.id for a in list(call.args) + [k.value for k in call.keywords] for x in ast.walk(a) if isinstance(x, ast.Name)}
+    keep = {k for k in keep if k not in argnames}
+    rename = {v: v + tag for v in h.assigned if v not in params and v in caller_names and v not in keep}
     # parameters that are re-assigned inside the helper were bound to a fresh local above; route stores to it
     for p in params:
         if p in h.assigned and isinstance(mapping.get(p), ast.Name):
@@ -218,10 +220,63 @@ def _always_returns(stmts):
     return False
 
 
+def _replace_node(root, old, new):
+    for n in ast.walk(root):
+        for fld, v in ast.iter_fields(n):
+            if v is old:
+                setattr(n, fld, new)
+                return True
+            if isinstance(v, list):
+                for i, x in enumerate(v):
+                    if x is old:
+                        v[i] = new
+                        return True
+    return False
+
+
+PURE_CALLS = {"len", "int", "float", "str", "bool", "min", "max", "sum", "abs", "round", "isinstance", "any", "all", "repr",
+              "list", "tuple", "sorted", "set", "frozenset", "dict", "enumerate", "zip", "range", "reversed", "getattr", "Path"}
+PURE_METHODS = {"index", "get", "lower", "upper", "keys", "values", "items", "startswith", "endswith", "strip", "lstrip", "rstrip",
+                "split", "format", "join", "count", "find", "partition", "with_name", "with_suffix", "hexdigest", "read_bytes",
+                "get_ports", "get_ISA", "get_data_ports"}
+CREATORS = {"list", "tuple", "sorted", "set", "frozenset", "dict", "enumerate", "zip", "range", "reversed"}
+MUTATING = {"append", "add", "insert", "extend", "update", "remove", "pop", "sort", "reverse", "clear", "setdefault", "discard", "popitem"}
+
+
+def _pure(e):
+    for n in ast.walk(e):
+        if isinstance(n, ast.Call):
+            if isinstance(n.func, ast.Name):
+                if n.func.id not in PURE_CALLS:
+                    return False
+            elif isinstance(n.func, ast.Attribute):
+                if n.func.attr not in PURE_METHODS:
+                    return False
+            else:
+                return False
+        elif isinstance(n, (ast.Lambda, ast.Yield, ast.YieldFrom, ast.Await, ast.NamedExpr, ast.Starred)):
+            return False
+    return True
+
+
+def _creates(e):
+    if isinstance(e, (ast.List, ast.Dict, ast.Set, ast.ListComp, ast.SetComp, ast.DictComp, ast.GeneratorExp)):
+        return True
+    if isinstance(e, ast.Call) and isinstance(e.func, ast.Name) and e.func.id in CREATORS:
+        return True
+    if isinstance(e, ast.BinOp):
+        return _creates(e.left) or _creates(e.right)
+    if isinstance(e, ast.IfExp):
+        return _creates(e.body) or _creates(e.orelse)
+    return False
+
+
 class Inliner:
-    def __init__(self, repo, known_funcs, known_consts):
+    def __init__(self, repo, known_funcs, known_consts, known_locals=None):
         self.repo = repo
         self.known_funcs, self.known_consts = known_funcs, known_consts
+        self.known_locals = known_locals or {}
+        self.temps = []          # (function qname, local name) propagated
         self.helpers = {}
         self.rejected = {}
         self.counter = 0
@@ -289,9 +344,26 @@ class Inliner:
 
     # ---- expansion --------------------------------------------------------------------------
     def run(self):
-        order = sorted(self.repo.funcs.values(), key=lambda f: (f.qname not in self.helpers, f.qname))
-        for _ in range(4):
+        for f in self.repo.funcs.values():
+            if not f.file.startswith("osaca/data/"):
+                self._names(f)
+        for _ in range(5):
             changed = False
+            # constants and temps first: a helper whose body becomes a single return expression can be substituted anywhere
+            for f in self.repo.funcs.values():
+                if f.file.startswith("osaca/data/"):
+                    continue
+                self._inline_constants(f)
+                before = len(self.temps)
+                self._propagate_temps(f)
+                changed = changed or len(self.temps) != before
+            for q in list(self.helpers):
+                try:
+                    self.helpers[q] = Helper(q, self.repo.funcs[q].node, self.repo.funcs[q].cls)
+                except NotInlinable as e:
+                    self.rejected[q] = str(e)
+                    del self.helpers[q]
+            order = sorted(self.repo.funcs.values(), key=lambda f: (f.qname not in self.helpers, f.qname))
             for f in order:
                 if f.file.startswith("osaca/data/"):
                     continue
@@ -299,10 +371,131 @@ class Inliner:
                     changed = True
             if not changed:
                 break
-        for f in self.repo.funcs.values():
-            if not f.file.startswith("osaca/data/"):
-                self._inline_constants(f)
         return self
+
+    def _propagate_temps(self, f):
+        """Locals that did not exist when the rules were written (or that this pass introduced), are assigned exactly once
+        from a pure expression and only read afterwards, are replaced by that expression (undoing "introduce local")."""
+        known = self.known_locals.get(f.qname)
+        if known is None:
+            known = set()      # a new (not expandable) helper: every temp is fair game
+        from .cfg import CFG
+
+        for _ in range(6):
+            stores = {}
+            for n in ast.walk(f.node):
+                if isinstance(n, ast.Name) and isinstance(n.ctx, (ast.Store, ast.Del)):
+                    stores.setdefault(n.id, []).append(n)
+            params = {a.arg for a in ast.walk(f.node.args) if isinstance(a, ast.arg)}
+            cand = None
+            for name, sts in stores.items():
+                if name in known or name in params or len(sts) != 1:
+                    continue
+                st = sts[0]
+                par = getattr(st, "_p", None)
+                asg = self._assign_of(f, st)
+                if asg is None or not _pure(asg.value):
+                    continue
+                # free names of the value must be stable: parameters / self / names stored at most once / loop targets
+                free = {x.id for x in ast.walk(asg.value) if isinstance(x, ast.Name)}
+                if name in free:
+                    continue
+                uses = [x for x in ast.walk(f.node) if isinstance(x, ast.Name) and x.id == name and isinstance(x.ctx, ast.Load)]
+                if not uses:
+                    continue
+                if any(len(stores.get(v, [])) > 1 for v in free):
+                    # allowed for `t = x` whose single use is in the very next statement of the same block, or when no
+                    # store of a free name can execute after the definition
+                    adjacent = isinstance(asg.value, ast.Name) and len(uses) == 1 and self._next_stmt_uses(f.node, asg, uses[0])
+                    if not adjacent:
+                        try:
+                            cfg0 = CFG(f.node)
+                            later = any(cfg0.reachable(asg, cfg0.node_of(st2)) for v in free if len(stores.get(v, [])) > 1
+                                        for st2 in stores[v])
+                        except Exception:
+                            later = True
+                        if later:
+                            continue
+                if not self._only_read(f, name, creates=_creates(asg.value)):
+                    continue
+                try:
+                    cfg = CFG(f.node)
+                    if not all(cfg.dominates(asg, u) and cfg.node_of(u) is not asg for u in uses):
+                        continue
+                except Exception:
+                    continue
+                cand = (name, asg, uses)
+                break
+            if cand is None:
+                return
+            name, asg, uses = cand
+            for u in uses:
+                _replace_node(f.node, u, ast.copy_location(_clone(asg.value), u))
+            self._remove_stmt(f.node, asg)
+            self.temps.append((f.qname, name))
+
+    @staticmethod
+    def _next_stmt_uses(root, asg, use):
+        for n in ast.walk(root):
+            for fld in ("body", "orelse", "finalbody"):
+                b = getattr(n, fld, None)
+                if isinstance(b, list) and asg in b:
+                    i = b.index(asg)
+                    if i + 1 < len(b) and not isinstance(b[i + 1], (ast.For, ast.While, ast.If, ast.With, ast.Try)):
+                        return any(x is use for x in ast.walk(b[i + 1]))
+        return False
+
+    @staticmethod
+    def _assign_of(f, store_name):
+        for n in ast.walk(f.node):
+            if isinstance(n, ast.Assign) and len(n.targets) == 1 and n.targets[0] is store_name:
+                return n
+        return None
+
+    @staticmethod
+    def _only_read(f, name, creates):
+        for n in ast.walk(f.node):
+            if isinstance(n, ast.Call) and isinstance(n.func, ast.Attribute) and isinstance(n.func.value, ast.Name) \
+                    and n.func.value.id == name and n.func.attr in MUTATING:
+                return False
+            if isinstance(n, (ast.Assign, ast.AugAssign, ast.Delete)):
+                tg = n.targets if isinstance(n, (ast.Assign, ast.Delete)) else [n.target]
+                for t in tg:
+                    for x in ast.walk(t):
+                        if isinstance(x, (ast.Subscript, ast.Attribute)) and isinstance(x.ctx, (ast.Store, ast.Del)):
+                            b = x.value
+                            while isinstance(b, (ast.Subscript, ast.Attribute)):
+                                b = b.value
+                            if isinstance(b, ast.Name) and b.id == name:
+                                return False
+                if isinstance(n, ast.AugAssign) and isinstance(n.target, ast.Name) and n.target.id == name:
+                    return False
+            if creates:
+                # a freshly created container must not escape (argument of a non-pure call, returned, stored)
+                if isinstance(n, ast.Call):
+                    pure = (isinstance(n.func, ast.Name) and n.func.id in PURE_CALLS) or (
+                        isinstance(n.func, ast.Attribute) and n.func.attr in PURE_METHODS)
+                    # `**name` copies the mapping: not an escape
+                    if not pure and any(isinstance(a, ast.Name) and a.id == name
+                                        for a in list(n.args) + [k.value for k in n.keywords if k.arg is not None]):
+                        return False
+                if isinstance(n, (ast.Return, ast.Yield)) and n.value is not None and any(
+                        isinstance(x, ast.Name) and x.id == name for x in ast.walk(n.value)):
+                    return False
+                if isinstance(n, ast.Assign) and isinstance(n.value, ast.Name) and n.value.id == name:
+                    return False
+        return True
+
+    @staticmethod
+    def _remove_stmt(root, stmt):
+        for n in ast.walk(root):
+            for fld in ("body", "orelse", "finalbody"):
+                b = getattr(n, fld, None)
+                if isinstance(b, list) and stmt in b:
+                    b.remove(stmt)
+                    if not b and fld == "body":
+                        b.append(ast.copy_location(ast.Pass(), stmt))
+                    return
 
     def _inline_constants(self, f):
         inl = self
@@ -352,6 +545,14 @@ class Inliner:
         f.node.body = expand_block(f.node.body)
         return changed
 
+    def _names(self, f):
+        """Names the caller used before anything was expanded into it."""
+        self._orig_names = getattr(self, "_orig_names", {})
+        if f.qname not in self._orig_names:
+            self._orig_names[f.qname] = frozenset(n.id for n in ast.walk(f.node) if isinstance(n, ast.Name)) | frozenset(
+                a.arg for a in ast.walk(f.node) if isinstance(a, ast.arg))
+        return self._orig_names[f.qname]
+
     def _fresh(self):
         self.counter += 1
         return self.counter
@@ -369,7 +570,7 @@ class Inliner:
                 if h is None or h.expr is None or h.qname == f.qname:
                     return n
                 try:
-                    _, mapping, rename = _bind(h, n, recv, inl._fresh())
+                    _, mapping, rename = _bind(h, n, recv, inl._fresh(), inl._names(f))
                 except NotInlinable:
                     return n
                 nonlocal did
@@ -407,7 +608,8 @@ class Inliner:
             h, recv = self._callee(f, call)
             if h is not None and h.expr is None and h.qname != f.qname and not h.loop_return:
                 try:
-                    pre, mapping, rename = _bind(h, call, recv, self._fresh())
+                    keep = frozenset(t.id for t in (targets or []) if isinstance(t, ast.Name))
+                    pre, mapping, rename = _bind(h, call, recv, self._fresh(), self._names(f), keep)
                     body = [_Subst(mapping, rename).visit(_clone(x)) for x in h.body]
                     if kind == "return":
                         new = body
@@ -423,4 +625,41 @@ class Inliner:
                     return new or [ast.Pass()]
                 except NotInlinable as e:
                     self.rejected[h.qname] = str(e)
+        # 3. statement helpers nested inside a simple statement: hoisted into a fresh local first
+        if isinstance(s, (ast.Assign, ast.Expr, ast.Return, ast.AugAssign, ast.AnnAssign)):
+            hit = self._nested_helper_call(f, s)
+            if hit is not None:
+                c, h, recv = hit
+                tmp = "%s__ret%d" % (h.node.name.strip("_"), self._fresh())
+                try:
+                    pre, mapping, rename = _bind(h, c, recv, self._fresh(), self._names(f))
+                    body = [_Subst(mapping, rename).visit(_clone(x)) for x in h.body]
+                    new, _ = _conv(body, "assign", [ast.Name(id=tmp, ctx=ast.Store())])
+                    new = pre + new
+                    for n in new:
+                        for x in ast.walk(n):
+                            ast.copy_location(x, s)
+                    _replace_node(s, c, ast.copy_location(ast.Name(id=tmp, ctx=ast.Load()), c))
+                    self.expanded.append((f.qname, h.qname))
+                    self.hoisted = getattr(self, "hoisted", set()) | {(f.qname, tmp)}
+                    return new + [s]
+                except NotInlinable as e:
+                    self.rejected[h.qname] = str(e)
         return [s] if did else None
+
+    def _nested_helper_call(self, f, s):
+        """A call to a multi-statement helper that is evaluated unconditionally as part of simple statement `s`."""
+        def walk(n, cond):
+            for ch in ast.iter_child_nodes(n):
+                if isinstance(ch, (ast.Lambda, ast.ListComp, ast.SetComp, ast.DictComp, ast.GeneratorExp)):
+                    continue
+                c2 = cond or isinstance(n, (ast.BoolOp, ast.IfExp))
+                if isinstance(ch, ast.Call) and not c2:
+                    h, recv = self._callee(f, ch)
+                    if h is not None and h.expr is None and h.qname != f.qname and not h.loop_return:
+                        return ch, h, recv
+                r = walk(ch, c2)
+                if r is not None:
+                    return r
+            return None
+        return walk(s, False)
